@@ -174,6 +174,13 @@ def run(ctx):
     ctx.extra["configurations"] = {"all": len(allcfgs), "used": len({json.dumps(c["cfg"], sort_keys=True) for c in cases})}
     batches = [cases[i:i + 6] for i in range(0, len(cases), 6)]
     res = [r for b in core.tmap(run_batch, batches, threads=6) for r in b]
+    lines = validate(ctx, cases, res)
+    ctx.sample({"case": cases[0]["cfg"], "events": [e["a"] + "@" + e["where"] for e in lines[0]["ev"]] if lines else []})
+    ctx.rule = RULE
+
+
+def validate(ctx, cases, res):
+    """recorded round trips -> Shipping.tla (M4); a rejected trace is a violation"""
     lines = []
     for tid, (c, r) in enumerate(zip(cases, res), 1):
         ctx.ran()
@@ -193,8 +200,10 @@ def run(ctx):
             ev = l["ev"][min(v.get("l", 1), len(l["ev"])) - 1]
             ctx.violation(f"shipping trace rejected at {v['verdict']}: {ev['a']} ({ev['where']})", case={"case": c},
                           expected="accepted", observed={"verdict": v, "events": l["ev"]})
-    ctx.sample({"case": cases[0]["cfg"], "events": [e["a"] + "@" + e["where"] for e in lines[0]["ev"]] if lines else []})
-    ctx.rule = ("tasks (C03 workflow generator records outside the recorded finding classes, python tasks, shell tasks) x "
+    return lines
+
+
+RULE = ("tasks (C03 workflow generator records outside the recorded finding classes, python tasks, shell tasks) x "
                 "worker/submitter configurations enumerated by TLC (Shipping_Gen: plugin x way of passing the worker x parameter "
                 "set x read-only caches x audit x max_concurrent; quick: every plugin/way/parameter-set once); one cloudpickle "
                 "round trip through a fresh interpreter each; batch-system workers are shipped and projected, not run")
@@ -202,5 +211,6 @@ def run(ctx):
 
 def replay(ctx, rec):
     c = rec["case"]["case"]
-    print(run_batch([c]))
-    ctx.ran()
+    res = run_batch([c])
+    print(res)
+    validate(ctx, [c], res)
